@@ -49,8 +49,8 @@ XS = 'http://www.w3.org/2001/XMLSchema'
 XSI = 'http://www.w3.org/2001/XMLSchema-instance'
 MODES = ('all', 'none', 'local', 'remote', 'sandbox')
 MAIN_KINDS = ('path', 'file_url', 'text', 'open_file', 'remote_url', 'text_remote_base')
-MECHS = ('include', 'redefine', 'override', 'import', 'locations', 'mapper_dict', 'mapper_call', 'hint_child', 'hint_demand', 'hint_pkg', 'hint_text', 'import_second', 'import_second_safe')
-IMP_MECHS = ('import', 'locations', 'hint_child', 'hint_demand', 'hint_pkg', 'hint_text', 'import_second', 'import_second_safe')
+MECHS = ('include', 'redefine', 'override', 'import', 'locations', 'mapper_dict', 'mapper_call', 'hint_child', 'hint_demand', 'hint_pkg', 'hint_text', 'import_second', 'import_second_safe', 'hint_child_nobase')
+IMP_MECHS = ('import', 'locations', 'hint_child', 'hint_demand', 'hint_pkg', 'hint_text', 'import_second', 'import_second_safe', 'hint_child_nobase')
 REMOTE_BASE = 'http://vk.example/base/sand/'
 
 
@@ -273,6 +273,12 @@ def run_cell(res, xmlschema, fx, mode, main_kind, mech, cls, spell_name, loc):
                         f'xsi:schemaLocation="urn:imp {esc(loc)}">v</i:{child}></root>')
                 r = xmlschema.XMLResource(inst, base_url=fx.sand, allow=mode, opener=opener)
                 list(schema.iter_errors(r, use_location_hints=True))
+            elif mech == 'hint_child_nobase':
+                # the same, with an instance resource built by the caller without a base and without an access mode of its
+                # own: the schema's mode decides about the hinted location
+                inst = (f'<root xmlns="urn:main" xmlns:xsi="{XSI}"><i:{child} xmlns:i="urn:imp" '
+                        f'xsi:schemaLocation="urn:imp {esc(loc)}">v</i:{child}></root>')
+                list(schema.iter_errors(xmlschema.XMLResource(inst, opener=opener), use_location_hints=True))
             elif mech == 'hint_demand':
                 # the namespace is known only through the `locations` argument (no xs:import): it is tried at build
                 # time and, if that failed, again on demand when the wildcard meets a child of that namespace
